@@ -1,7 +1,7 @@
 (* C04 -- utility profiles are thermodynamically feasible and lowest-grade-first.
    Only statements; every proof is `exact <lemma>` from proofs/Utility*.v. *)
 From OP Require Import gen.Consts model.Base model.Stream model.Utility
-  proofs.BaseFacts proofs.UtilityLadder proofs.UtilityDuty proofs.UtilityProfile proofs.UtilityWitness.
+  proofs.BaseFacts proofs.UtilityLadder proofs.UtilityDuty proofs.UtilityProfile proofs.UtilityWitness proofs.UtilityRows.
 Local Open Scope Q_scope.
 
 (* greedy_optimal: the lowest-grade-first closed form dominates, prefix by prefix from the lowest grade, EVERY allocation
@@ -45,10 +45,10 @@ Print Assumptions C04_lowest_grade_first_cold.
    together at most the largest enthalpy reachable from x (pgen; on a pocket-free segment that is the profile's value at the
    highest row <= x, lemma pgen_all_reach).  For ladders clear of the grid the left side is exactly the hot part of H_ut at a
    row (step form `hut_step`), so this is 0 <= H_ut(T_i) <= H_np(T_i).
-   OPEN: `feasible : forall i, 0 <= nth i (hut_model T hus cus dh dc) <= nth i HA` as a statement about the utility CASCADE
-   model is not proved.  Missing: hut_model T .. = map (hut_step ..) T for ladders clear of the grid (the activity-window
-   argument of C01's cascade_row); it is evaluated per case instead (clauses 25, 36, 39 of judge_c04).  For ladders with a
-   glide inside the process range the statement is FALSE for the code as it is: C04_glide_feasible_refuted. *)
+   CLOSED (was OPEN): `feasible : forall i, 0 <= nth i (hut_model T hus cus dh dc) <= H_np[i]` as a statement about the utility
+   CASCADE model is now proved for gridded ladders: C04_utility_profile_is_step_at_every_row (hut_model = hut_step at every
+   row) and C04_utility_profile_feasible_at_every_row below.  For ladders with a glide inside the process range the
+   statement is FALSE for the code as it is: C04_glide_feasible_refuted. *)
 Theorem C04_level_feasible_partial :
   forall ivs limit l x, 0 <= limit -> (forall v, In v ivs -> hadj v <= limit) ->
   msum (map (fun u => qleb (us u) x) l) (assign_loop tol ivs limit l 0) <= pgen tol ivs x.
@@ -95,3 +95,104 @@ Theorem C04_nonvacuous :
   /\ assign_hot tol Tc HAc 8 husc = [45; 30; 0] /\ assign_cold tol Tc (cold_demand HAc 8) 8 cusc = [80; 20; 0].
 Proof. exact classic_closed_form. Qed.
 Print Assumptions C04_nonvacuous.
+
+(* ======================================================================================================================
+   ROW-BY-ROW feasibility of the utility grand composite column (the statement C04 asks for), on the utility CASCADE model.
+   A utility is `gridded` (gridded_hot / gridded_cold) when it is isothermal in the code's sense (0.1 K wide: shifted lower
+   end < shifted upper end, span = their difference > activity window), clear of the grid (clear_hot / clear_cold, the notion
+   of C03_assign_closed_form_hot/_cold), and its two shifted end points are rows (create_problem_table_with_t_int puts them
+   there).  The default utilities are of this kind and lie wholly outside the process range: C04_default_utilities_isothermal.
+   ====================================================================================================================== *)
+
+(* cascade = step profile, ANY non-negative duties: if some row xp separates the hot utilities that carry duty (wholly at or
+   above xp) from the cold ones that carry duty (lower end below xp), the column H_NET_UT = max(h) - h computed by the utility
+   problem table equals at every row the sum of the hot duties wholly at or below the row + cold duties wholly at or above it *)
+Theorem C04_cascade_is_step :
+  forall T hus cus dh dc xp, strict_desc T = true ->
+  (forall u, In u hus -> gridded T u) -> (forall u, In u cus -> gridded T u) ->
+  Forall (fun q => 0 <= q) dh -> Forall (fun q => 0 <= q) dc -> In xp T ->
+  (forall p, In p (combine hus dh) -> snd p == 0 \/ xp <= u_tmins (fst p)) ->
+  (forall p, In p (combine cus dc) -> snd p == 0 \/ u_tmins (fst p) < xp) ->
+  Forall2 Qeq (hut_model T hus cus dh dc) (map (fun x => hut_step x hus cus dh dc) T).
+Proof. exact hut_model_step_sep. Qed.
+Print Assumptions C04_cascade_is_step.
+
+(* the duties the code's loops assign (ANY demand profiles Hh / Hc, no monotonicity needed) satisfy the separation with
+   xp = the heating pinch row, provided the cooling demand is (numerically) zero on the rows of its segment at or above that
+   row: hut_model = hut_step at every row *)
+Theorem C04_utility_profile_is_step_at_every_row :
+  forall T Hh Hc rh rc hus cus,
+  let k := Nat.max (rc - 1) 0 in
+  let dh := assign_hot tol T Hh rh hus in let dc := assign_cold tol T Hc rc cus in
+  strict_desc T = true -> (rh < List.length T)%nat ->
+  Forall2 (fun t h => nth rh T 0 <= t -> h <= tol) (skipn k T) (skipn k Hc) ->
+  (forall u, In u hus -> gridded_hot tol T u) -> (forall u, In u cus -> gridded_cold tol T u) ->
+  Forall2 Qeq (hut_model T hus cus dh dc) (map (fun x => hut_step x hus cus dh dc) T).
+Proof. exact (assigned_hut_is_step tol tol_pos). Qed.
+Print Assumptions C04_utility_profile_is_step_at_every_row.
+
+(* feasible at every row, level form (no assumption on the spacing of the rows): pocket-free demand profiles on the two
+   segments => 0 <= H_ut(T_i) <= heating demand at level T_i + cooling demand at level T_i *)
+Theorem C04_utility_profile_feasible_at_every_level_of_a_row :
+  forall T Hh Hc rh rc hus cus,
+  let k := Nat.max (rc - 1) 0 in
+  let Ths := firstn (S rh) T in let Hhs := firstn (S rh) Hh in let Tcs := skipn k T in let Hcs := skipn k Hc in
+  let dh := assign_hot tol T Hh rh hus in let dc := assign_cold tol T Hc rc cus in
+  strict_desc T = true -> (rh < List.length T)%nat ->
+  noninc Hhs = true -> List.length Ths = List.length Hhs -> 0 <= lastq Hhs ->
+  noninc (rev Hcs) = true -> 0 <= headq Hcs ->
+  Forall2 (fun t h => nth rh T 0 <= t -> h <= tol) Tcs Hcs ->
+  (forall u, In u hus -> gridded_hot tol T u) -> (forall u, In u cus -> gridded_cold tol T u) ->
+  Forall2 (fun hut x => 0 <= hut /\ hut <= prow tol Ths Hhs x + prow_cold tol Tcs Hcs x) (hut_model T hus cus dh dc) T.
+Proof. exact (utility_rows_feasible tol tol_pos). Qed.
+Print Assumptions C04_utility_profile_feasible_at_every_level_of_a_row.
+
+(* feasible at every ROW: rows more than tol apart (the grid is rounded to the decimals of tol), pocket-free demand profiles:
+   0 <= H_ut[i] <= H_np[i] for every row i, H_np[i] = heating demand in row i (rows 0..rh) + cooling demand in row i (rows k..).
+   Residual hypotheses, all stated: the two demand columns Hh / Hc are given (in the code they are H_cold_net / H_hot_net of
+   the pocket-free GCC, monotone on their segments: that they are is the `side_*_ok` test evaluated per case), the cooling
+   demand vanishes at or above the heating pinch row, every utility is gridded. *)
+Theorem C04_utility_profile_feasible_at_every_row :
+  forall T Hh Hc rh rc hus cus,
+  let k := Nat.max (rc - 1) 0 in
+  let dh := assign_hot tol T Hh rh hus in let dc := assign_cold tol T Hc rc cus in
+  gapped tol T = true -> (rh < List.length T)%nat -> List.length T = List.length Hh -> List.length T = List.length Hc ->
+  noninc (firstn (S rh) Hh) = true -> 0 <= lastq (firstn (S rh) Hh) ->
+  noninc (rev (skipn k Hc)) = true -> 0 <= headq (skipn k Hc) ->
+  Forall2 (fun t h => nth rh T 0 <= t -> h <= tol) (skipn k T) (skipn k Hc) ->
+  (forall u, In u hus -> gridded_hot tol T u) -> (forall u, In u cus -> gridded_cold tol T u) ->
+  forall i, (i < List.length T)%nat ->
+  0 <= nth i (hut_model T hus cus dh dc) 0 /\
+  nth i (hut_model T hus cus dh dc) 0
+    <= (if (i <=? rh)%nat then nth i Hh 0 else 0) + (if (k <=? i)%nat then nth i Hc 0 else 0).
+Proof. exact (utility_rows_feasible_nth tol tol_pos). Qed.
+Print Assumptions C04_utility_profile_feasible_at_every_row.
+
+(* non-vacuity: the classic four-stream problem (19 rows, three 0.1 K levels a side) satisfies every hypothesis above *)
+Theorem C04_rows_nonvacuous :
+  forall i, (i < 19)%nat ->
+  0 <= nth i (hut_model Tc husc cusc [45; 30; 0] [80; 20; 0]) 0 /\
+  nth i (hut_model Tc husc cusc [45; 30; 0] [80; 20; 0]) 0
+    <= (if (i <=? 8)%nat then nth i HAc 0 else 0) + (if (7 <=? i)%nat then nth i (cold_demand HAc 8) 0 else 0).
+Proof. exact classic_rows_feasible. Qed.
+Print Assumptions C04_rows_nonvacuous.
+
+(* the default utilities are 0.1 K wide (isothermal in the above sense) and sit wholly outside the process range: the default
+   hot utility's lower shifted end is exactly the hottest process level x, the default cold utility's upper end the coldest *)
+Theorem C04_default_utilities_isothermal :
+  forall x,
+  (let u := default_hu x in
+   let s := star_of true (mkUcr (uc_id u) (Qmax (uc_ts u) (uc_tt u)) (Qmin (uc_ts u) (uc_tt u)) (uc_dt u)) in
+   iso s /\ u_tmins s == x) /\
+  (let u := default_cu x in
+   let s := star_of false (mkUcr (uc_id u) (Qmin (uc_ts u) (uc_tt u)) (Qmax (uc_ts u) (uc_tt u)) (uc_dt u)) in
+   iso s /\ u_tmaxs s == x).
+Proof. exact (fun x => conj (default_hu_iso x) (default_cu_iso x)). Qed.
+Print Assumptions C04_default_utilities_isothermal.
+
+(* STILL OPEN (evaluated per case by clauses 25/36/39 of judge_c04, not proved):
+   - the link H_np[i] = H_net_actual[i]: that the demand columns the code passes (flip (sep_cold HA) on rows 0..rh,
+     flip (sep_hot HA) on rows k..) equal the pocket-free GCC there and satisfy the monotonicity / zero-above-the-pinch
+     hypotheses is not derived from `sep_hot` / `sep_cold` / `pinch_idx`;
+   - ladders that are not gridded: an end point that is not a row makes the cascade a ramp inside an interval, not a step;
+     a glide inside the process range violates feasibility (C04_glide_feasible_refuted). *)
